@@ -64,8 +64,9 @@ static inline StdCall feed_standard(Ctx &c, vnacal_new_t *vnp, const SessionSpec
 	else { smat = handles; pmap = st.ports; }
     }
     int n = (int)pmap.size();
-    {
-	LibCall lc(c, faultop);
+    int pend_err = 0;
+    for (int attempt = 0; attempt < 2; ++attempt) {
+	LibCall lc(c, attempt == 0 ? faultop : nullptr);
 	cplx *const *A = ss.ab ? a.ptrs.data() : nullptr, *const *B = ss.ab ? b.ptrs.data() : nullptr, *const *Mm = ss.ab ? nullptr : m.ptrs.data();
 	int ar = a.rows, ac = a.cols;
 	if (kind == 2 && variant == 2) {
@@ -89,9 +90,14 @@ static inline StdCall feed_standard(Ctx &c, vnacal_new_t *vnp, const SessionSpec
 	}
 	out.fired = g_sim.fired_vna > 0;
 	out.ncb = g_sim.callbacks.size();
+	out.cat = -1; out.msg.clear();
 	if (out.ncb) { out.cat = g_sim.callbacks.back().category; out.msg = g_sim.callbacks.back().msg; }
 	lc.done();
 	out.err = lc.saved_errno;
+	// failed because of the injected allocation failure: re-issue without it
+	if (attempt == 0 && out.fired && out.rc != 0 && !c.violated) { fault_failed(c, "vnacal_new_add_*", out.err, true); pend_err = out.err; continue; }
+	if (attempt == 1 && out.rc == 0) fault_recovered(c, "vnacal_new_add_*", pend_err, true);
+	break;
     }
     return out;
 }
@@ -128,15 +134,12 @@ static inline ApplyResult apply_device(Ctx &c, vnacal_t *vcp, int ci, const Sess
 	}
 	vnadata_t *out;
 	{ LibCall lc(c); out = vnadata_alloc(sim_error_fn, nullptr); lc.done(); }
-	int rc, e;
-	{
-	    LibCall lc(c, faultop);
+	int rc, e = 0;
+	LIB_RETRY(c, faultop, "vnacal_apply", e, rc != 0,
 	    rc = ss.ab ? vnacal_apply(vcp, ci, fv.data(), n, a.ptrs.data(), a.rows, a.cols, b.ptrs.data(), P, P, out)
 		       : vnacal_apply_m(vcp, ci, fv.data(), n, m.ptrs.data(), P, P, out);
-	    if (!g_sim.callbacks.empty()) res.msg = g_sim.callbacks.back().msg;
-	    lc.done();
-	    e = lc.saved_errno;
-	}
+	    res.msg.clear();
+	    if (!g_sim.callbacks.empty()) res.msg = g_sim.callbacks.back().msg);
 	if (rc == 0) {
 	    LibCall lc(c);
 	    if (vnadata_get_type(out) != VPT_S || vnadata_get_rows(out) != P || vnadata_get_columns(out) != P || vnadata_get_frequencies(out) != n) rc = -2;
